@@ -300,6 +300,9 @@ func newTimedRun(out *TraceWriter, seed int64, run int, driver string) (*timedRu
 	rng := mrand.New(mrand.NewSource(seed*1000003 + int64(run)))
 	seedNonces(seed*7 + int64(run))
 	c := NewCluster(seed+int64(run), out)
+	if run%4 == 2 {
+		c.Clk.Origin = FarOrigin // the injected clock lies far beyond the machine's date (traces stay relative to the origin)
+	}
 	c.Rng = rng
 	t := &timedRun{c: c, rng: rng, tpb: 1000, resetAt: map[int]int64{}, fired: map[int]bool{}, lastArm: map[int]int64{},
 		cut: map[int]bool{}, down: map[int]bool{}, txOff: map[uint32]int64{}, propSeen: map[uint32]bool{}, victim: -1}
